@@ -278,7 +278,7 @@ func TestC19(t *testing.T) {
 	runLane(s, Lane[c19Burst]{Name: "burst", Journal: true, Quick: 200, Thor: 3000, Gen: c19BurstGen, Run: c19Par(3, c19BurstRun)})
 	runLane(s, Lane[c09Case]{Name: "c09", Journal: true, Quick: 60, Thor: 800, Gen: c09Gen, Run: c19Par(3, c09Run)})
 	runLane(s, Lane[c10Case]{Name: "c10", Journal: true, Quick: 40, Thor: 500, Gen: c10Gen, Run: c19Par(3, c10Run)})
-	runLane(s, Lane[c17Case]{Name: "c17", Journal: true, Quick: 150, Thor: 300, Gen: c17Gen, Run: c19Par(3, c17Run)})
+	runLane(s, Lane[c17Case]{Name: "c17", Journal: true, Quick: 150, Thor: 2000, Gen: c17Gen, Run: c19Par(3, c17Run)})
 	runLane(s, Lane[c18Case]{Name: "c18s", Journal: true, Quick: 60, Thor: 800, Gen: c18Gen, Run: c19Par(3, c18ServerRun)})
 	runLane(s, Lane[c02Case]{Name: "c02", Journal: true, Quick: 30, Thor: 400, Gen: func(t *rapid.T) c02Case {
 		c := c02Gen(t)
